@@ -346,6 +346,15 @@ def tour_jobs(ctx, cfgname, n_paths, rnd, pool):
     return jobs
 
 
+# variants that re-create a historical defect of the design: a schedule the regressed design admits is concretised and
+# run on the current code; only a failing property-level oracle on the real code is a violation
+REGRESSIONS = [
+    ("PassExtra", "FALSE", ["fast-hc4-smalldict", "fast-bt4-smalldict", "chunksize", "preset"], ["CopyInRange"]),
+    ("MoveKeepsPending", "FALSE", ["fast-bt4-bigdict"], ["MatchSourceInRange"]),
+    ("PendingAssertStrict", "TRUE", ["fast-bt4-smalldict", "normal-bt4-smalldict"], ["PendingAssertHolds"]),
+]
+
+
 # =========================================================================== executor
 def require_taken(r, actions, what):
     """Vacuity guard on TLC's per-action coverage (generated successors; a successor that coincides with another
@@ -408,10 +417,12 @@ def run_plan(ctx, pid, tier):
 
     # ---------------------------------------------------------------- regression probes: the regressed designs' counter-examples
     probes = []
-    if ab["PassExtra"] == "TRUE":
-        for n in (["fast-hc4-smalldict"] if quick else ["fast-hc4-smalldict", "fast-bt4-smalldict", "chunksize", "preset"]):
-            c = E.scaled(**dict(E.SCALED_CFGS[n][0], PassExtra="FALSE"))
-            probes.append((n, "PassExtra=FALSE", pool.submit(E.model_check, n, c, ["CopyInRange"])))
+    for flag, regressed, cfgs, pinv in REGRESSIONS:
+        if ab[flag] == regressed or pid == "C13":
+            continue
+        for n in (cfgs[:1] if quick else cfgs):
+            c = E.scaled(**dict(E.SCALED_CFGS[n][0], **{flag: regressed, "N": 24}))
+            probes.append((n, f"{flag}={regressed}", pool.submit(E.model_check, n, c, pinv)))
     for n, flag, f in probes:
         r = f.result()
         ctx.add("regression_models_checked")
@@ -420,10 +431,12 @@ def run_plan(ctx, pid, tier):
             jobs.append(concretise(b, E.SCALED_CFGS[n][1], f"probe-{n}-{b}"))
             meta.append(("tlc-regression-cex:" + flag, dict(cfg=n, bad=b)))
             ctx.add("regression_probes")
+        else:
+            raise ToolError(f"regression probe {n} {flag}: the regressed design no longer violates its invariant (vacuous probe)")
 
     # ---------------------------------------------------------------- stage 2: tours; driver families
     t0 = time.time()
-    tour_cfgs = {"C01": ["fast-hc4-smalldict", "fast-bt4-bigdict", "lzma1-fast-hc4", "chunksize"] + ([] if quick else ["normal-bt4-smalldict", "preset", "fast-hc4-bigdict"]),
+    tour_cfgs = {"C01": ["fast-hc4-smalldict", "fast-bt4-bigdict", "lzma1-fast-hc4"] + ([] if quick else ["chunksize", "normal-bt4-smalldict", "preset", "fast-hc4-bigdict"]),
                  "C13": [], "C15": ["fast-hc4-smalldict"] + ([] if quick else ["normal-bt4-smalldict", "fast-bt4-bigdict"])}[pid]
     fast_dev = os.environ.get("C1_DEV_ONLY_CEX") == "1"      # development aid: design counter-examples only
     if fast_dev:
@@ -438,7 +451,7 @@ def run_plan(ctx, pid, tier):
     elif pid == "C01":
         for j in corner_jobs(tier):
             jobs.append(j); meta.append(("corner", {}))
-        for j in grid_jobs(rnd, 150 if quick else 3000, (1 << 20) if quick else (8 << 20), trace_every=1 if quick else 4):
+        for j in grid_jobs(rnd, 130 if quick else 3000, (1 << 20) if quick else (8 << 20), trace_every=2 if quick else 4):
             jobs.append(j); meta.append(("grid", {}))
         for j in bias_jobs(tier, rnd):
             jobs.append(j); meta.append(("bias", {}))
